@@ -67,6 +67,7 @@ func C19(c *core.Ctx) {
 	c.Count("writer_functions", len(writers))
 	c.Floor("B1/write-sinks", nsinks, 28)
 	c.Floor("B1/writer-functions", len(writers), 9)
+	c.Count("writes_with_path_check", checkErrorExaminedBeforeNextWrite(c, p, sinks))
 	// ---- B2: propagation along the static call graph
 	wset := map[*ssa.Function]bool{}
 	for f := range writers {
@@ -189,4 +190,156 @@ func checkExecuteExits(c *core.Ctx, key string) {
 		}
 	}
 	c.Ob(key, ok, f.Pos(), "%s", detail)
+}
+
+// errAliases: the values a write's error result can be read through (phis, local variables).
+func errAliases(ev ssa.Value) map[ssa.Value]bool {
+	set := map[ssa.Value]bool{ev: true}
+	work := []ssa.Value{ev}
+	for len(work) > 0 {
+		v := work[len(work)-1]
+		work = work[:len(work)-1]
+		refs := v.Referrers()
+		if refs == nil {
+			continue
+		}
+		for _, r := range *refs {
+			switch x := r.(type) {
+			case *ssa.Phi:
+				if !set[x] {
+					set[x] = true
+					work = append(work, x)
+				}
+			case *ssa.ChangeInterface:
+				if !set[x] {
+					set[x] = true
+					work = append(work, x)
+				}
+			case *ssa.MakeInterface:
+				if !set[x] {
+					set[x] = true
+					work = append(work, x)
+				}
+			case *ssa.Store:
+				if x.Val != v {
+					continue
+				}
+				var loadsOf func(addr ssa.Value)
+				loadsOf = func(addr ssa.Value) {
+					ar := addr.Referrers()
+					if ar == nil {
+						return
+					}
+					for _, lr := range *ar {
+						if u, ok := lr.(*ssa.UnOp); ok && u.Op == token.MUL && !set[u] {
+							set[u] = true
+							work = append(work, u)
+						}
+					}
+				}
+				switch a := x.Addr.(type) {
+				case *ssa.Alloc:
+					loadsOf(a)
+				case *ssa.FreeVar:
+					loadsOf(a)
+				}
+			}
+		}
+	}
+	return set
+}
+
+// checkErrorExaminedBeforeNextWrite (B4): on every path from a write to the next write (possibly the same call,
+// one loop iteration later) or to the function's return, the write's error is examined (compared with nil),
+// returned or sent. An error that is only looked at after further writes have overwritten it is lost.
+func checkErrorExaminedBeforeNextWrite(c *core.Ctx, p *progFacts, sinks []sink) int {
+	isSink := map[ssa.Instruction]bool{}
+	for _, s := range sinks {
+		isSink[s.call.(ssa.Instruction)] = true
+	}
+	n := 0
+	perFn := map[*ssa.Function]int{}
+	for _, s := range sinks {
+		tf := topFunc(s.fn)
+		if c.Prop == "C19" && isDeprecatedIndels(tf) {
+			continue
+		}
+		ev := errValueOf(s.call)
+		if ev == nil {
+			continue // B1 reports it
+		}
+		perFn[tf]++
+		n++
+		key := fmt.Sprintf("B4/%s/write#%d/error-examined-before-the-next-write", fnKey(tf), perFn[tf])
+		A := errAliases(ev)
+		uses := func(v ssa.Value) bool { return v != nil && A[v] }
+		type pt struct {
+			b *ssa.BasicBlock
+			i int
+		}
+		start := s.call.(ssa.Instruction)
+		sb := start.Block()
+		si := 0
+		for i, ins := range sb.Instrs {
+			if ins == start {
+				si = i + 1
+			}
+		}
+		seen := map[*ssa.BasicBlock]bool{}
+		work := []pt{{sb, si}}
+		var bad string
+		var badPos token.Pos
+		for len(work) > 0 && bad == "" {
+			cur := work[len(work)-1]
+			work = work[:len(work)-1]
+			stopped := false
+			for i := cur.i; i < len(cur.b.Instrs) && !stopped; i++ {
+				ins := cur.b.Instrs[i]
+				switch x := ins.(type) {
+				case *ssa.If:
+					if bo, ok := x.Cond.(*ssa.BinOp); ok && (uses(bo.X) || uses(bo.Y)) {
+						stopped = true
+					}
+				case *ssa.Return:
+					for _, r := range x.Results {
+						if uses(r) {
+							stopped = true
+						}
+					}
+					if !stopped {
+						bad, badPos = "the function returns at "+c.PosStr(x.Pos())+" without having looked at it", x.Pos()
+					}
+					stopped = true
+				case *ssa.Send:
+					if uses(x.X) {
+						stopped = true
+					}
+				case ssa.CallInstruction:
+					if isSink[ins] {
+						bad, badPos = "the next write at "+c.PosStr(ins.Pos())+" happens before it is looked at (a failure of this write is forgotten if a later write succeeds)", ins.Pos()
+						stopped = true
+						break
+					}
+					// passing the error to a function (wrapping, reporting) counts as examined
+					for _, a := range x.Common().Args {
+						if uses(a) {
+							stopped = true
+						}
+					}
+				}
+			}
+			if stopped {
+				continue
+			}
+			for _, succ := range cur.b.Succs {
+				if !seen[succ] {
+					seen[succ] = true
+					work = append(work, pt{succ, 0})
+				}
+			}
+		}
+		_ = badPos
+		c.Ob(key, bad == "", s.call.Pos(), "%s: the error of this write is not examined on every path: %s", s.what, bad)
+	}
+	return n
 }
